@@ -137,6 +137,15 @@ def parse_table(s):
     if not s.startswith("T"): return None
     res = {}
     for nsb in s.split("|")[1:]:
+        if nsb.startswith("#rev:"):
+            rev = {}
+            for x in (nsb[5:].split(",") if len(nsb) > 5 else []):
+                sh, _, rest = x.partition("=")
+                ns, _, name = rest.partition(":")
+                if sh in rev: return None
+                rev[sh] = (ns, name)
+            res["#rev"] = rev
+            continue
         parts = nsb.split(";")
         name, _, i = parts[0].rpartition("@")
         ents = {}
@@ -157,11 +166,11 @@ def parse_table(s):
 def ids_of(tab):
     """the id part of a table, user namespaces only"""
     return {ns: (i, {e: (x[0], {f: y[0] for f, y in x[1].items()}) for e, x in ents.items()})
-            for ns, (i, ents) in tab.items() if ns != "sys"}
+            for ns, v in tab.items() if ns != "sys" and not ns.startswith("#") for (i, ents) in [v]}
 
 
 def names_of(tab):
-    return {ns: {e: set(x[1]) for e, x in ents.items()} for ns, (_, ents) in tab.items() if ns != "sys"}
+    return {ns: {e: set(x[1]) for e, x in ents.items()} for ns, v in tab.items() if ns != "sys" and not ns.startswith("#") for (_, ents) in [v]}
 
 
 def names_of_version(v):
@@ -170,6 +179,10 @@ def names_of_version(v):
         for e, fs, _ in ents:
             res.setdefault(ns, {})[e] = set(f[0] for f in fs)
     return res
+
+
+def user_rev(tab):
+    return {sh: x for sh, x in tab.get("#rev", {}).items() if x[0] != "sys"}
 
 
 def expected_ids(v):
@@ -262,6 +275,7 @@ class C15(Cfg):
         fields_of = {}             # entity ref -> set of fields of the accepted version (instance 0)
         dirty_live = False         # instance 0 runs on a model that a refused version modified
         tainted = set()            # rows written through fields that only a refused version brought
+        was_nullable = set()       # (entity ref, field) that some accepted version declared nullable
 
         def flag(sig, detail):
             res.append((sig, detail))
@@ -289,7 +303,7 @@ class C15(Cfg):
                     if accepted and prev[i] is not None:
                         # an accepted version keeps every pre-existing item at its position in the text
                         got0 = ids_of(tab)
-                        for ns, (nid, ents) in prev[i].items():
+                        for ns, (nid, ents) in ((k_, v_) for k_, v_ in prev[i].items() if not k_.startswith("#")):
                             if ns == "sys" or not accepted: continue
                             if ns not in exp or exp[ns][0] != got0[ns][0]: accepted = False; break
                             for e, x in ents.items():
@@ -300,7 +314,7 @@ class C15(Cfg):
                 # -- ids never change / never collide (accepted or not)
                 if tab is not None:
                     if before is not None:
-                        for ns, (nid, ents) in before.items():
+                        for ns, (nid, ents) in ((k_, v_) for k_, v_ in before.items() if not k_.startswith("#")):
                             if ns in tab and tab[ns][0] != nid:
                                 flag("id-changed", "namespace %r id %d -> %d" % (ns, nid, tab[ns][0]))
                             for e, x in ents.items():
@@ -312,8 +326,20 @@ class C15(Cfg):
                                     fy = y[1].get(f)
                                     if fy is None: flag("item-lost", "field %s.%s.%s disappeared" % (ns, e, f))
                                     elif fy[0] != fx[0]: flag("id-changed", "field %s.%s.%s short %d -> %d" % (ns, e, f, fx[0], fy[0]))
+                    # -- the reverse table: every entity is found again through its short name, and only entities are
+                    rev = tab.get("#rev")
+                    if rev is not None:
+                        want = {}
+                        for ns, v_ in tab.items():
+                            if ns.startswith("#"): continue
+                            for e, x in v_[1].items(): want[x[0]] = (ns, e)
+                        if rev != want:
+                            missing = [sh for sh in want if sh not in rev]
+                            wrong = [sh for sh in rev if sh in want and rev[sh] != want[sh]]
+                            flag("reverse-table-broken", "entities_short: missing %s wrong %s extra %s" % (
+                                missing[:3], wrong[:3], [sh for sh in rev if sh not in want][:3]))
                     seen_ns, seen_ent = {}, {}
-                    for ns, (nid, ents) in tab.items():
+                    for ns, (nid, ents) in ((k_, v_) for k_, v_ in tab.items() if not k_.startswith("#")):
                         if nid in seen_ns: flag("id-collision", "namespaces %r and %r share id %d" % (ns, seen_ns[nid], nid))
                         seen_ns[nid] = ns
                         for e, x in ents.items():
@@ -360,6 +386,7 @@ class C15(Cfg):
                                 fields_of[(ns, e)] = set(f[0] for f in fs)
                                 for f in fs:
                                     defaults.setdefault(((ns, e), f[0]), set(["null"])).add(f[3].partition(":")[2] if f[3] != "-" else "null")
+                                    if "n" in f[2]: was_nullable.add(((ns, e), f[0]))
                 else:
                     # -- a refused version changes nothing
                     if text == acc_text[i] and acc_text[i] is not None:
@@ -383,7 +410,7 @@ class C15(Cfg):
                 # -- peers that accepted the same text agree on the ids
                 for j in range(n):
                     if j != i and acc_text[j] is not None and acc_text[j] == acc_text[i] and acc_tab[j] is not None and acc_tab[i] is not None:
-                        if ids_of(acc_tab[j]) != ids_of(acc_tab[i]):
+                        if ids_of(acc_tab[j]) != ids_of(acc_tab[i]) or user_rev(acc_tab[j]) != user_rev(acc_tab[i]):
                             if hash_order[i] or hash_order[j]: flag("hash-order-ids", "two peers on the same accepted text disagree on short ids")
                             else: flag("peers-disagree", "two peers on the same accepted text disagree on short ids")
             elif k == "put":
@@ -396,6 +423,27 @@ class C15(Cfg):
                     rows[int(a.get("r", "0"))] = (ref, vals)
                     if dirty_live and any(f not in fields_of.get(ref, set()) for f in vals):
                         tainted.add(int(a.get("r", "0")))
+            elif k == "conf":
+                if out.startswith("conf bad"):
+                    bad = [int(x[1:]) for x in out.split(" ")[-1].split(",") if x[1:].isdigit()]
+                    dropped = False
+                    cur = parse_version(acc_text[0]) if acc_text[0] is not None else None
+                    for no in bad:
+                        if no not in rows or cur is None: continue
+                        ref, vals = rows[no]
+                        for ns, ents in cur:
+                            for e, fs, _ in ents:
+                                if (ns, e) != ref: continue
+                                for f in fs:
+                                    scalar = f[1] in ("B", "F", "I", "S", "X", "J")
+                                    if scalar and f[0] not in vals and "n" not in f[2] and f[3] == "-":
+                                        hist = defaults.get((ref, f[0]), set())
+                                        if len(hist - set(["null"])) > 0 or ((ref, f[0]) in was_nullable):
+                                            dropped = True
+                    if dropped:
+                        flag("default-dropped", "a version removed the default (or nullability) some stored rows rely on: %s" % out)
+                    else:
+                        flag("old-row-not-conforming", "stored rows do not conform to the accepted model: %s" % out)
             elif k == "get":
                 if a.get("i") != "0": continue
                 ref = tuple(a.get("e", ":").split(":", 1))
